@@ -53,7 +53,7 @@ from urwid.canvas import CanvasError
 from urwid.widget.widget import WidgetWarning
 from vlib import gen_text as T
 from vlib import gen_widgets as G
-from vlib.runner import Discard, Violation, innermost_is_urwid, urwid_frame
+from vlib.runner import Discard, Violation, innermost_is_urwid, jhash, urwid_frame
 from vlib.widths import use_encoding
 
 PROPERTY = "C06"
@@ -1075,10 +1075,11 @@ def shard(ctx):
 # ---------------------------------------------------------------------------------------------
 # known findings
 #
-# A KNOWN predicate tests the root cause: "the case holds once the proposed repairs of all recorded
-# findings are simulated, and still fails when every repair but this one is simulated".  The repairs are
-# simulated from outside (class attributes swapped for the duration of one evaluation, urwid's files are
-# not touched) and are used by the predicates only, never by the campaign.
+# A KNOWN predicate tests the root cause: the failing case is re-evaluated with the proposed repair of a
+# recorded finding simulated (see _attribute: the case must hold with all repairs, and is attributed to the
+# finding whose repair alone makes it hold).  The repairs are simulated from outside (class attributes swapped
+# for the duration of one evaluation, urwid's files are not touched) and are used by the predicates only,
+# never by the campaign.
 
 
 def _repair_valign():
@@ -1162,11 +1163,33 @@ def _repair_scrollable_adjust():
     return undo
 
 
+def _repair_scrollbar_nocache():
+    """ScrollBar.render() is not cached (as with no_cache = ["render"]); its ancestors then are not stored either"""
+    cls = urwid.ScrollBar
+    orig = cls.__dict__["render"]
+
+    def render(self, size, focus=False):
+        canv = orig.original_fn(self, size, focus)
+        if canv.widget_info:
+            canv = urwid.CompositeCanvas(canv)
+        canv.finalize(self, size, focus)
+        return canv
+
+    render.original_fn = orig.original_fn
+    cls.render = render
+
+    def undo():
+        cls.render = orig
+
+    return undo
+
+
 _REPAIRS = {
     "C06-listbox-valign-no-invalidate": _repair_valign,
     "C06-edit-focus-shift-cached-at-text-level": _repair_edit_text_level,
     "C06-columns-hidden-pack-column-not-a-dependency": _repair_columns_hidden_pack,
     "C06-scrollable-render-moves-position": _repair_scrollable_adjust,
+    "C06-scrollbar-thumb-depends-on-undisplayed-content": _repair_scrollbar_nocache,
 }
 
 
@@ -1187,9 +1210,30 @@ def _holds_with(case, repairs):
         _CTX = saved_ctx
 
 
+_ATTR_MEMO: dict = {}
+
+
+def _attribute(case):
+    """Which recorded finding explains this failing case?  None if the case still fails with every repair
+    simulated.  Otherwise the first finding (in _REPAIRS order, bluntest repair last) whose repair alone makes
+    the case hold; if no single repair does, the first one that is necessary; else the first."""
+    key = jhash(case)
+    if key in _ATTR_MEMO:
+        return _ATTR_MEMO[key]
+    ids = list(_REPAIRS)
+    fid = None
+    if _holds_with(case, ids):
+        fid = next((i for i in ids if _holds_with(case, [i])), None)
+        if fid is None:
+            fid = next((i for i in ids if not _holds_with(case, [j for j in ids if j != i])), ids[0])
+    if len(_ATTR_MEMO) > 2000:
+        _ATTR_MEMO.clear()
+    _ATTR_MEMO[key] = fid
+    return fid
+
+
 def _caused_by(fid, case):
-    others = [r for r in _REPAIRS if r != fid]
-    return _holds_with(case, list(_REPAIRS)) and not _holds_with(case, others)
+    return _attribute(case) == fid
 
 
 _DIFF = ("content-differs", "cursor-differs")
@@ -1218,6 +1262,12 @@ KNOWN = {
     "C06-scrollable-render-moves-position": lambda sub, case, v: sub == "hist"
     and v.clause in _DIFF
     and _caused_by("C06-scrollable-render-moves-position", case),
+    # ScrollBar draws its thumb from the wrapped widget's total row count and position (rows_max / get_scrollpos),
+    # which depend on content that is not displayed (ListBox items outside the window); only displayed widgets are
+    # dependencies of its canvas, so a change to an undisplayed item leaves the cached bar in place
+    "C06-scrollbar-thumb-depends-on-undisplayed-content": lambda sub, case, v: sub == "hist"
+    and v.clause in _DIFF
+    and _caused_by("C06-scrollbar-thumb-depends-on-undisplayed-content", case),
     # a flow Columns whose only displayed columns are box columns (the flow/pack columns were pushed out to make
     # room for the focus column): render() gives a 0-row canvas, rows() reports 1; rows() answered from the cached
     # canvas therefore differs from rows() computed afresh.  Root cause is the render/rows disagreement (C01).
